@@ -1,0 +1,16 @@
+//go:build verif
+
+package deque
+
+// VerifState exposes the raw representation for the verification harness in /verif.
+// Read-only; compiled only with -tags verif.
+func (d *Deque[T]) VerifState() (isNil bool, capacity, front, back, gen int) {
+	return d.a == nil, len(d.a), d.front, d.back, d.gen
+}
+
+// VerifSlots returns a copy of the raw backing buffer.
+func (d *Deque[T]) VerifSlots() []T {
+	out := make([]T, len(d.a))
+	copy(out, d.a)
+	return out
+}
